@@ -14,6 +14,12 @@ CLAIMED = {
    text="TLC checks that the implementation-shaped algorithm (sort, split, scan) equals the declarative earliest-valid-wins definition for every return order of the store, over stores with competing operations, duplicate creates, published+unpublished operations and non-monotone transaction numbers; every store x every permutation is replayed on the real processor; verdict: identical views and operation lists for all orders, equal to the specification."),
  "C03": dict(engine="Resolution", design="4/C03", technique="TLA+ reference state machine (SidetreeCore!ResolveRef) as oracle; TLC-enumerated histories replayed through the real processor and compared field by field",
    text="Every history of <=4 operations over an 18-shape (thorough 28-shape) alphabet with all partial-failure branches, forks, replays and commitment cycles is resolved by the specification (TLC also checks ConsumeOnce/NoRevisit/ImplMatchesRef) and by the real code; document projection, both commitments and the deactivated flag must agree. A per-case watchdog turns non-termination into a violation."),
+ "C04": dict(engine="Resolution", design="4/C04", technique="TLA+ Resolution model with monotone anchoring (action property DeactivationTerminal, invariant RecoverSupersedes) + replay of every (store, later extension) pair through the real processor",
+   text="TLC explores every store built by anchoring operations in increasing order (plus unpublished ones) over an alphabet with old-key operations and recovers re-committing to already revealed update keys, and checks the action property that a published deactivation is never undone and the invariant that no update at or before the last recover is applied. The harness replays every store, pairs each with its one-operation-shorter predecessor and evaluates the property on the real results (deactivated stays deactivated/empty/no commitments; document = recover's content + only later/unpublished updates)."),
+ "C06": dict(engine="Resolution", design="4/C06", technique="TLA+ Resolution model (HistoricalIsTruncation, PastIsImmutable) + replay: real(store, versionTime/versionId) vs real(truncated store) for every store and every cut",
+   text="For every enumerated store, every version time 0..max+1 and every version id (each stored reference, plus an unknown one) the real processor is run with the resolution option and, separately, on the truncated history; both must agree with each other and with the specification's result for the truncated store; unknown ids and times before the first operation must be errors."),
+ "C12": dict(engine="Resolution", design="4/C12", technique="TLA+ Resolution model over cyclic-commitment alphabets (ConsumeOnce, NoRevisit) + replay with non-termination watchdog",
+   text="Self-loops, 2-cycles and 3-cycles in the update and recovery chains at every chain position are enumerated; TLC checks on the specification that no chain consumes a commitment twice or revisits one; every store is replayed on the real processor (must terminate and equal the specification's chain prefix)."),
 }
 
 def check(pid, m):
